@@ -28,6 +28,8 @@ from __future__ import annotations
 from hypothesis import strategies as st
 from hypothesis.stateful import RuleBasedStateMachine, initialize, invariant, precondition, rule
 
+import pyairtouch.comms.socket as sockmod
+
 from pav import refproto, sockops
 from pav.harness import Stats, Violation, drive, given_test, machine_test
 from pav.rig import SockRig, make_header, registry
@@ -80,7 +82,7 @@ class Interp:
         """Messages waiting for a connection (accepted while down, no connection since, lifetime not elapsed)."""
         out = []
         for a in self.accepted:
-            due, dead = self.due_of(a)
+            due, dead = self._natural_due(a)   # an unencodable message occupies a slot like any other until its turn
             if due is None and not dead:
                 out.append(a)
         return out
@@ -94,9 +96,19 @@ class Interp:
         """Registers one submission; returns the coroutine to await."""
         reg = registry(self.gen)
         now = self.rig.loop.time()
+        policy = sockops.policy_of(pol)
+        if kind == "bad":
+            # a message send() accepts but that cannot be encoded when its turn comes: it is never transmitted and
+            # must not hold up the messages queued behind it
+            from pav.checks.c07 import bad_message
+            msg, bhdr = bad_message(self.gen, params)
+            coro = self.rig.sock.send(msg, policy) if bhdr is None else self.rig.sock.send_with_header(bhdr, msg, policy)
+            self.accepted.append({"exp": None, "t": now, "connected": connected, "expiry": now + policy.max_lifetime,
+                                  "kind": f"unencodable:{params}", "logpos": len(self.rig.net.log), "unencodable": True})
+            self.nt.add("unencodable-among-accepted")
+            return coro
         msg = sockops.build(self.gen, kind, params)
         mtype, data = sockops.expect(self.gen, kind, params)
-        policy = sockops.policy_of(pol)
         if hdr is None:
             to = 0x90 if mtype == 0x1F else 0x80
             exp = (to, 0xB0, None, mtype, data)
@@ -118,7 +130,7 @@ class Interp:
         now = self.rig.loop.time()
         if connected:
             # the backlog accepted during the outage is still held at this point (flushed after the notification)
-            held = sum(1 for a in self.accepted if not a["connected"] and self.due_of(a) == (now, False))
+            held = sum(1 for a in self.accepted if not a["connected"] and self._natural_due(a) == (now, False))
         else:
             held = len(self.pending())
         for kind, params, pol, hdr in batch[:max(0, 10 - held)]:
@@ -138,35 +150,23 @@ class Interp:
     def op_send(self, batch):
         """batch: list of [kind, params, policy, hdr] ; hdr None | [to, frm, pid]"""
         loop = self.rig.loop
-        reg = registry(self.gen)
-        now = loop.time()
         was_connected = self.connected
         tasks = []
         for kind, params, pol, hdr in batch:
-            msg = sockops.build(self.gen, kind, params)
-            mtype, data = sockops.expect(self.gen, kind, params)
-            policy = sockops.policy_of(pol)
-            if hdr is None:
-                to = 0x90 if mtype == 0x1F else 0x80
-                exp = (to, 0xB0, None, mtype, data)
-                coro = self.rig.sock.send(msg, policy)
-            else:
-                to, frm, pid = hdr
-                exp = (to, frm, pid, mtype, data)
-                size = reg.get_encoder(msg.message_id).size(msg)
-                coro = self.rig.sock.send_with_header(make_header(self.gen, to, frm, pid, msg.message_id, size), msg, policy)
-            tasks.append(loop.spawn(coro))
-            self.accepted.append({"exp": exp, "t": now, "connected": was_connected, "expiry": now + policy.max_lifetime,
-                                  "kind": kind, "logpos": len(self.rig.net.log)})
+            coro = self._item(kind, params, pol, hdr, was_connected)
+            tasks.append((loop.spawn(coro), self.accepted[-1]))
         if len(batch) >= 2:
             self.nt.add("same-instant-batch")
         loop.settle()
-        for t in tasks:
+        for t, entry in tasks:
             if not t.done():
                 if self.rig.net.current is not None and self.rig.net.current.write_paused:
                     continue  # blocked in drain() by a paused writer: legitimate
                 self.bad("send-pending", "send() neither returned nor raised at a settled instant")
             if t.done() and not t.cancelled() and t.exception() is not None:
+                if entry.get("unencodable") and not isinstance(t.exception(), sockmod.QueueOverflowError):
+                    self.accepted.remove(entry)   # refused at submission: not accepted, nothing is held for it
+                    continue
                 self.bad("send-raised", f"send raised {t.exception()!r}")
         self.sent_total += len(batch)
         if self.sent_total > 256:
@@ -230,6 +230,11 @@ class Interp:
     def due_of(self, a):
         """(due instant | None, dead).  A message accepted while the link was down is due at the instant the next
         connection is established; if its lifetime has elapsed by then it is dead (it must never be transmitted)."""
+        if a.get("unencodable"):
+            return None, True     # never transmitted
+        return self._natural_due(a)
+
+    def _natural_due(self, a):
         if a["connected"]:
             return a["t"], False
         later = [e[0] for e in self.rig.net.log[a["logpos"]:] if e[1] == "open"]
@@ -338,8 +343,10 @@ _hdr = st.one_of(st.none(), st.none(),
 
 
 def _send_item(gen):
-    return st.tuples(sockops.kind_and_params(gen), sockops.policy_strategy((2.0, 30.0, 60.0)), _hdr).map(
+    good = st.tuples(sockops.kind_and_params(gen), sockops.policy_strategy((2.0, 30.0, 60.0)), _hdr).map(
         lambda t: [t[0][0], t[0][1], t[1], t[2]])
+    bad = st.sampled_from(["struct", "value", "notimpl"]).map(lambda v: ["bad", v, "idem", None])
+    return st.one_of(good, good, good, good, good, good, good, bad)
 
 
 def make_machine(gen: int, stats: Stats):
@@ -536,7 +543,7 @@ def shards(tier: str):
 def floors(tier: str):
     return {"multi-pending-outage": 30, "same-instant-batch": 60, "wrap-256": 2, "expired-among-pending": 30,
             "sent-from-connection-subscriber:up": 40, "sent-from-connection-subscriber:down": 40,
-            "flush-suspended-by-backpressure": 40}
+            "flush-suspended-by-backpressure": 40, "unencodable-among-accepted": 100}
 
 
 def run_shard(spec, seed: int, tier: str):
